@@ -56,7 +56,48 @@ def gen_tables(ctx):
     consts = EM._read_eml_format.__code__.co_consts
     txt += f"Definition eml_default_filename : str := {coq_str('attachment') if 'attachment' in consts else '[]'}.\n"
     txt += f"Definition eml_default_mime : str := {coq_str('application/octet-stream') if 'application/octet-stream' in consts else '[]'}.\n"
+    txt += "\nFrom S2T Require C16.Loop.\nImport C16.Loop.\n"
+    txt += "Definition attachment_loop : list st := " + attachment_loop_skeleton(EM) + ".\n"
     ctx.gen_write("Gen/C16Tables.v", txt)
+
+
+def attachment_loop_skeleton(EM) -> str:
+    """X: the body of `for attachment in mail.attachments:` in _read_eml_format as a C16.Loop.st list.  Fail-closed: every
+    statement kind that is not known to be harmless becomes SUnknown (and the Inst obligation breaks); no such loop, or more
+    than one, gives [SUnknown]."""
+    import ast
+    import inspect
+    import textwrap
+    tree = ast.parse(textwrap.dedent(inspect.getsource(EM._read_eml_format)))
+    loops = [n for n in ast.walk(tree) if isinstance(n, ast.For) and isinstance(n.iter, ast.Attribute) and n.iter.attr == "attachments"]
+    if len(loops) != 1 or loops[0].orelse:
+        return "[SUnknown]"
+
+    def is_append(s):
+        return (isinstance(s, ast.Expr) and isinstance(s.value, ast.Call) and isinstance(s.value.func, ast.Attribute)
+                and s.value.func.attr == "append" and isinstance(s.value.func.value, ast.Name) and s.value.func.value.id == "attachments")
+
+    def stmts(body):
+        return "[" + "; ".join(stmt(s) for s in body) + "]"
+
+    def stmt(s):
+        if is_append(s):
+            return "SAppend"
+        if isinstance(s, ast.If):
+            return f"(SIf {stmts(s.body)} {stmts(s.orelse)})"
+        if isinstance(s, ast.Continue):
+            return "SContinue"
+        if isinstance(s, ast.Break):
+            return "SBreak"
+        if isinstance(s, (ast.Return, ast.Raise)):
+            return "SRaise"
+        if isinstance(s, (ast.Assign, ast.AnnAssign, ast.AugAssign, ast.Pass)) or (isinstance(s, ast.Expr) and not any(
+                isinstance(n, (ast.Yield, ast.YieldFrom, ast.Await)) for n in ast.walk(s))):
+            # assignments and expression statements: any `attachments` mutation other than the one append is not harmless
+            names = [n for n in ast.walk(s) if isinstance(n, ast.Name) and n.id == "attachments"]
+            return "SUnknown" if names else "SSkip"
+        return "SUnknown"       # try / with / nested loops / del / ... : not in the modelled shape
+    return stmts(loops[0].body)
 
 
 # ------------------------------------------------------------------------------------------ implementation drivers
@@ -463,7 +504,7 @@ def run(ctx):
 
     # ---- proofs
     # the expected theorems are about the code at HEAD; C16_alt_* (stated over split_mbox_messages_rd / *_joined) are extra
-    ctx.prove("C16/Props.v", ["C16/ProofsMbox.vo", "C16/ProofsMail.vo", "C16/ProofsMsg.vo"], expected=[
+    ctx.prove("C16/Props.v", ["C16/ProofsMbox.vo", "C16/ProofsMail.vo", "C16/ProofsMsg.vo", "C16/Loop.vo"], expected=[
         "C16_mbox_roundtrip", "C16_mbox_boundaries_only_at_separators", "C16_mbox_unescaped_From_splits_refuted",
         "C16_mbox_escaped_one_per_message", "C16_mbox_quoting_undone_refuted", "C16_body_selection_spec",
         "C16_body_is_no_attachment", "C16_body_single_part", "C16_body_outside_attachments_refuted", "C16_body_several_inline_parts",
@@ -472,10 +513,11 @@ def run(ctx):
         "C16_attachment_contribution_context_free", "C16_msg_recipient_angle", "C16_msg_recipients_split", "C16_msg_quoted_comma_refuted",
         "C16_msg_body_mapping", "C16_eml_attachments_count", "C16_mbox_date_field",
         "C16_from_line_sound", "C16_from_line_complete", "C16_mbox_any_quoting_one_per_message", "C16_mboxo_one_per_message",
-        "C16_mbox_mmdf_delimiters_kept_refuted"])
+        "C16_mbox_mmdf_delimiters_kept_refuted", "C16_eml_loop_one_per_record", "C16_eml_attachment_bytes_exact",
+        "C16_eml_attachment_bytes_passthrough"])
     ctx.prove("C16/Inst.v", ["Gen/C16Tables.vo", "C16/Corr.vo"], expected=[
         "C16_tables_wf", "C16_mime_fallback_ok", "C16_fallback_paths_lower_case", "C16_from_pattern_is_modelled",
-        "C16_fold_pattern_is_modelled", "C16_literals"])
+        "C16_fold_pattern_is_modelled", "C16_literals", "C16_eml_attachment_loop_appends_once"])
 
     pre = ("From Coq Require Import ZArith List Bool.\nFrom S2T Require Import Lib.PyStr C03.Lib C03.Extract C16.Model C16.Corr Gen.C16Tables.\n"
            "From S2T Require C07.Model.\nImport ListNotations.\nOpen Scope N_scope.\n")
@@ -560,6 +602,11 @@ def run(ctx):
         if rng.random() < 0.05:          # Subject is optional in RFC 5322
             raw = re.sub(rb"(?m)^Subject:.*\n(?:[ \t].*\n)*", b"", raw, count=1)
             sp["subject"] = ""
+        if rng.random() < 0.35:          # other writers' spellings of the header NAMES (Message-Id, CC, SUBJECT, date, ...)
+            raw2_ = G.recase_header_names(raw, rng)
+            if sp["date"] is None or G.lossless(sp, raw2_, headers_only=True):
+                raw = raw2_
+                sp["recased"] = True
         specs.append((sp, raw))
     ctx.extra["generator_lossy_discarded"] = lossy
     # a forwarded message attached as message/rfc822 below an HTML-only body
@@ -1118,6 +1165,95 @@ def run(ctx):
 
     corr("msg_mapping", "msg_case", fc, finfo,
          "list str * list str * str * str * str * list (str * str * str * str) * ((str * str) * list (str * str) * str * str * list (str * str))", shard=60)
+
+    # ---- D6: _read_eml_format over ARBITRARY mailparser records (parse_from_bytes stubbed): names, types, flags and data of
+    #      every attachment, one per record - binary and text records, str / bytes / missing payloads, empty ones included
+    import types
+    import binascii
+    rec_cases, rec_info = [], []
+    real_parse = EM.parse_from_bytes
+    for k in range(ctx.n(120, 1200)):
+        recs = []
+        for _ in range(rng.randrange(0, 5)):
+            data = rng.choice([b"", b"", b"x", b"hello bytes", b"\x00\xff", "caf\u00e9".encode("utf-8"), b" ", b"\n"])
+            binary = rng.random() < 0.6
+            kind = rng.choice(["str", "bytes", "none"])
+            if kind == "none":
+                payload = rng.choice([None, "", b""])
+            elif binary:
+                payload = base64.b64encode(data).decode("ascii") if kind == "str" else base64.b64encode(data)
+            else:
+                payload = rng.choice(["text caf\u00e9", "", "a\udcffb", "plain"]) if kind == "str" else data
+            rec = {"filename": rng.choice(["a.txt", "", None, "r\u00e9sum\u00e9.pdf", "attachment"]),
+                   "mail_content_type": rng.choice(["text/plain", "", None, "application/pdf", "application/x-unknown"]),
+                   "payload": payload, "binary": rng.choice([True, 1]) if binary else rng.choice([False, None, 0])}
+            if rng.random() < 0.1:
+                del rec["payload"]
+            recs.append(rec)
+        fake = types.SimpleNamespace(from_=[("N", "a@b.c")], to=[], cc=[], bcc=[], reply_to=[], date=None, message_id="<i@x>", subject="s",
+                                     in_reply_to="", text_plain=["b"], text_html=[], attachments=recs)
+        EM.parse_from_bytes = lambda payload, _f=fake: _f
+        try:
+            try:
+                out = EM._read_eml_format(b"ignored")
+            except (binascii.Error, ValueError, TypeError) as ex:
+                continue              # an undecodable base64 payload raises in HEAD as well as in the model's oracle: not a case
+        finally:
+            EM.parse_from_bytes = real_parse
+        ctx.case(("eml-record", k), bool(recs), kind=f"eml-record:{min(len(recs), 4)}")
+        if len(out.attachments) != len(recs):
+            ctx.finding("eml:attachments:record-dropped", f"eml: {len(recs)} mailparser attachment records give {len(out.attachments)} EmailAttachments",
+                        {"records": [{k_: (v_ if not isinstance(v_, bytes) else v_.hex()) for k_, v_ in r.items()} for r in recs]})
+        b64t, u8t, rterms = {}, {}, []
+        for r in recs:
+            pl = r.get("payload")
+            eff = pl or b""
+            if r.get("binary"):
+                b64t[eff if isinstance(eff, bytes) else eff.encode("latin-1", "replace")] = base64.b64decode(eff)
+            elif isinstance(eff, str):
+                u8t[eff] = eff.encode("utf-8", errors="ignore")
+            pterm = "PNone" if pl is None else f"(PStr {coq_str(pl)})" if isinstance(pl, str) else f"(PBytes {coq_bytes(pl)})"
+            rterms.append(f"({coq_str(r.get('filename') or '')}, {coq_str(r.get('mail_content_type') or '')}, {coq_bool(bool(r.get('binary')))}, {pterm})")
+        b64rows = coq_list([pair(coq_bytes(k_), coq_bytes(v_)) for k_, v_ in b64t.items()])
+        u8rows = coq_list([pair(coq_str(k_), coq_bytes(v_)) for k_, v_ in u8t.items()])
+        exp = coq_list([f"({coq_str(a.filename)}, {coq_str(a.mime_type)}, {coq_bool(a.is_supported_mime_type)}, {coq_bytes(a.data.getvalue())})" for a in out.attachments])
+        rec_cases.append(f"({b64rows}, {u8rows}, {coq_list(rterms)}, {exp})")
+        rec_info.append([(r.get("filename"), r.get("binary"), type(r.get("payload")).__name__) for r in recs])
+    corr("eml_records", "(eml_record_case T)", rec_cases, rec_info,
+         "list (str * str) * list (str * str) * list (str * str * bool * mp_payload) * list (str * str * bool * str)", shard=300)
+
+    # ---- D7: the single-part body: declared charset -> codec, UTF-8 fallback for unknown names and refusing codecs
+    labels = ["utf-8", "UTF-8", "us-ascii", "iso-8859-1", "latin1", "windows-1252", "koi8-r", "shift_jis", "gb2312", "x-unknown", "utf-9", "", None,
+              "unknown-8bit", "utf-16", "utf_7", "rot13", "idna", "undefined", "hex", "ISO-8859-15", "cp437", "big5", "punycode", "unicode_escape"]
+    datas = [b"plain ascii", "caf\u00e9 \u4f1a\u8b70".encode("utf-8"), b"caf\xe9", b"\xff\xfe\x00", b"\x81\x60 \x81\x7c", b"\xa1\xa4", b"+AGE-", b"68656c6c6f", b"x" * 3, b"\x80\x9f"]
+    pay_cases, pay_info = [], []
+    for k in range(ctx.n(150, 1500)):
+        lab, data = rng.choice(labels), rng.choice(datas)
+        head = b"From: a@b.c\nSubject: s\nDate: Mon, 01 Jan 2024 12:00:00 +0000\nMIME-Version: 1.0\nContent-Transfer-Encoding: base64\n"
+        head += b"Content-Type: text/plain" + (b"" if lab is None else b'; charset="' + lab.encode("ascii") + b'"') + b"\n\n"
+        pm = email.message_from_bytes(head + base64.encodebytes(data))
+        try:
+            got_p = MB.get_body_content(pm)[0]
+        except Exception as ex:  # noqa
+            ctx.finding("mbox:charset-label:unicodeerror-not-caught" if isinstance(ex, UnicodeError) else f"mbox:body:charset-label-raises:{lab}",
+                        f"mbox: a text part labelled charset={lab!r} makes get_body_content raise {ex!r} (the UTF-8 fallback catches only LookupError / UnicodeDecodeError)",
+                        {"message": pm.as_bytes(), "charset": lab})
+            continue
+        cs = pm.get_content_charset()
+        use = cs or "utf-8"
+        try:
+            r_ = f"(DOk {coq_str(data.decode(use, errors='replace'))})"
+        except LookupError:
+            r_ = "DLookupError"
+        except UnicodeDecodeError:
+            r_ = "DUnicodeError"
+        except Exception as ex:  # noqa  (codecs that are not text codecs raise other things: outside the modelled fallback)
+            continue
+        pay_cases.append(f"({coq_list([pair(coq_bytes(data), pair(coq_str(use), r_))])}, {coq_list([pair(coq_bytes(data), coq_str(data.decode('utf-8', errors='replace')))])}, "
+                         f"{coq_bytes(data)}, {coq_opt(cs, coq_str)}, {coq_str(got_p)})")
+        pay_info.append((lab, data))
+        ctx.case(("payload", lab, data), True, kind="payload:" + ("fallback" if r_ != "" and not r_.startswith("(DOk") else "declared"))
+    corr("payload_decode", "payload_case", pay_cases, pay_info, "dec_table * u8_table * str * option str * str", shard=500)
 
     corr("attachment_lists", "(att_list_case T)", list_cases, list_info,
          "list (str * str) * list (str * option str) * list (str * str * bool) * option (list (C07.Model.extractor * str))", shard=200)
